@@ -5,6 +5,7 @@ composed with the per-channel bound into ONE statement about the colours of ever
 possibly translucent) half-block image.  Only theorems and examples.
 -/
 import VaxisModel.Props.C20Pixels
+import VaxisModel.Lemmas.ScalerGeneric
 
 namespace VaxisModel.Props.C20Generic
 open VaxisModel.Model.Blocks VaxisModel.Model.Scaler VaxisModel.Model.ImageFit VaxisModel.Spec.Images
@@ -132,6 +133,124 @@ theorem generic_model_contains_fast_model (F : FloatOps) (src : Img8) (w h cellW
       · simp only [hf, if_true]; rfl
       · simp only [hf, scaleG_generic]
         rfl
+
+/-! ## The whole pipeline for a source of any concrete type -/
+
+open VaxisModel.Lemmas.ScalerGeneric in
+/-- **`HalfBlockImage.Resize` on a source of ANY concrete type** (given by what its `At(x, y).RGBA()` returns — an
+    `*image.YCbCr` from a JPEG, `*image.Gray`, `*image.Paletted`, 16-bit types — any alpha, any float step): there is
+    one way `seen` every source pixel is seen — as it is (the image fitted) or through the scaler's 8-bit storage and
+    back (`RGBA()` of the stored high bytes) — and the cell at column `x`, row `y` is decided by `T`, `B` = `toRGB` of
+    the seen source pixels `(nnIndex x, nnIndex 2y)`, `(nnIndex x, nnIndex (2y+1))` under it (lower half transparent in
+    a last odd row) by the property's table: both alphas below 50 ⇒ default cell; only the top ⇒ `▄` in the bottom
+    colour; only the bottom ⇒ `▀` in the top colour; neither ⇒ `▀` top on bottom. -/
+theorem half_pipeline_any_source (F : FloatOps) (src : ImgG) (o : Bool) (w h : Nat) (hw : 0 < src.w) (hh : 0 < src.h)
+    (v : Img) (hr : resizeImgG F src o w h halfBlockGeom.1 halfBlockGeom.2 = .ok v) :
+    resizeDims F src.w src.h w h halfBlockGeom.1 halfBlockGeom.2 = .ok (v.w, v.h) ∧
+    ∃ seen : C16 → C16, (seen = id ∨ seen = fun c => conv .rgba (storeSrc c)) ∧
+      ∀ e ∈ halfCellsGen v, e.1 < v.w ∧ e.2.1 < ceilDiv v.h 2 ∧
+        let T := toRGB (seen (src.pix (nnIndex e.1 src.w v.w) (nnIndex (2 * e.2.1) src.h v.h)))
+        let B := if 2 * e.2.1 + 1 < v.h then toRGB (seen (src.pix (nnIndex e.1 src.w v.w) (nnIndex (2 * e.2.1 + 1) src.h v.h)))
+                 else (⟨0, 0, 0, 0⟩ : C8)
+        e.2.2 = (if T.a < 50 ∧ B.a < 50 then ⟨0x20, 0, 0⟩
+                 else if T.a < 50 then ⟨0x2584, rgbColor B.r B.g B.b, 0⟩
+                 else if B.a < 50 then ⟨0x2580, rgbColor T.r T.g T.b, 0⟩
+                 else ⟨0x2580, rgbColor T.r T.g T.b, rgbColor B.r B.g B.b⟩) := by
+  obtain ⟨hd, hcase⟩ := resizeImgG_cases genCfg F src o w h _ _ v hr
+  refine ⟨hd, ?_⟩
+  -- what the renderers read at an in-bounds position of the result
+  have key : ∃ seen : C16 → C16, (seen = id ∨ seen = fun c => conv .rgba (storeSrc c)) ∧
+      ∀ x y, x < v.w → y < v.h → v.at x y = seen (src.pix (nnIndex x src.w v.w) (nnIndex y src.h v.h)) := by
+    rcases hcase with he | he
+    · refine ⟨id, Or.inl rfl, fun x y hx hy => ?_⟩
+      have hvw : v.w = src.w := by rw [he]; rfl
+      have hvh : v.h = src.h := by rw [he]; rfl
+      rw [hvw, hvh, nnIndex_same x src.w hw, nnIndex_same y src.h hh]
+      rw [he]
+      exact asImg_at src x y (hvw ▸ hx) (hvh ▸ hy)
+    · refine ⟨fun c => conv .rgba (storeSrc c), Or.inr rfl, fun x y hx hy => ?_⟩
+      have := scaleG_view_at (!o) src v.w v.h x y hx hy
+      rw [← he] at this
+      exact this
+  obtain ⟨seen, hseen, hat⟩ := key
+  refine ⟨seen, hseen, ?_⟩
+  intro e he
+  rw [half_block_bottom_shape.2] at he
+  obtain ⟨h1, h2, h3, _⟩ := VaxisModel.Lemmas.ImageTerm.blockCells_mem halfCell v e he
+  obtain ⟨hrow, _⟩ := VaxisModel.Lemmas.ImageTerm.blockHeight_rows v.h e.2.1 h2
+  rw [VaxisModel.Lemmas.ImageFit.blockHeight_eq] at h2
+  refine ⟨h1, h2, ?_⟩
+  intro T B
+  rw [h3, halfCell, VaxisModel.Props.C20.transparent_default]
+  have hT : toRGB (v.at e.1 (2 * e.2.1)) = T := by rw [hat _ _ h1 hrow]
+  have hB : toRGB (v.at e.1 (2 * e.2.1 + 1)) = B := by
+    show _ = if 2 * e.2.1 + 1 < v.h then _ else _
+    by_cases hbot : 2 * e.2.1 + 1 < v.h
+    · rw [if_pos hbot, hat _ _ h1 hbot]
+    · rw [if_neg hbot]
+      have hz : v.at e.1 (2 * e.2.1 + 1) = ⟨0, 0, 0, 0⟩ := by simp [Img.at, hbot]
+      rw [hz]; decide
+  rw [hT, hB]
+
+/-- For an opaque source of any type — every decoded JPEG — this is exact: every cell is `▀` whose foreground /
+    background are exactly the 8-bit colours the two source pixels under it have where they are read: `toRGB` of the
+    16-bit colour when the image fitted, its high bytes after scaling (lower half default in a last odd row). -/
+theorem half_pipeline_any_opaque_source (F : FloatOps) (src : ImgG) (o : Bool) (w h : Nat) (hw : 0 < src.w) (hh : 0 < src.h)
+    (hop : ∀ x y, x < src.w → y < src.h → (src.pix x y).a = 0xffff ∧ (src.pix x y).r < 65536 ∧ (src.pix x y).g < 65536 ∧ (src.pix x y).b < 65536)
+    (v : Img) (hr : resizeImgG F src o w h halfBlockGeom.1 halfBlockGeom.2 = .ok v) :
+    ∃ shown : C16 → C8, (shown = toRGB ∨ shown = fun c => ⟨c.r / 256, c.g / 256, c.b / 256, 255⟩) ∧
+      ∀ e ∈ halfCellsGen v,
+        let t := shown (src.pix (nnIndex e.1 src.w v.w) (nnIndex (2 * e.2.1) src.h v.h))
+        let b := shown (src.pix (nnIndex e.1 src.w v.w) (nnIndex (2 * e.2.1 + 1) src.h v.h))
+        e.2.2 = ⟨0x2580, rgbColor t.r t.g t.b, if 2 * e.2.1 + 1 < v.h then rgbColor b.r b.g b.b else 0⟩ := by
+  obtain ⟨_, seen, hseen, hall⟩ := half_pipeline_any_source F src o w h hw hh v hr
+  have h255 : ∀ c : C16, c.a = 0xffff → c.r < 65536 → c.g < 65536 → c.b < 65536 → (toRGB c).a = 255 := by
+    intro c ha _ _ _
+    have : c.a = 255 * 257 := by rw [ha]
+    exact toRGB_alpha c 255 this (by decide)
+  -- how an opaque source pixel is shown, and that it is shown opaque
+  have key : ∃ shown : C16 → C8, (shown = toRGB ∨ shown = fun c => ⟨c.r / 256, c.g / 256, c.b / 256, 255⟩) ∧
+      ∀ c : C16, c.a = 0xffff → c.r < 65536 → c.g < 65536 → c.b < 65536 → toRGB (seen c) = shown c ∧ (shown c).a = 255 := by
+    rcases hseen with hs | hs
+    · refine ⟨toRGB, Or.inl rfl, fun c ha hr hg hb => ?_⟩
+      rw [hs]; exact ⟨rfl, h255 c ha hr hg hb⟩
+    · refine ⟨fun c => ⟨c.r / 256, c.g / 256, c.b / 256, 255⟩, Or.inr rfl, fun c ha hr hg hb => ?_⟩
+      rw [hs]
+      have := generic_scaled_opaque_pixel c ha hr hg hb false
+      simp only [Bool.false_eq_true, if_false] at this
+      exact ⟨this, rfl⟩
+  obtain ⟨shown, hshown, hsh⟩ := key
+  refine ⟨shown, hshown, ?_⟩
+  intro e he
+  obtain ⟨h1, h2, h3⟩ := hall e he
+  have hrow : 2 * e.2.1 < v.h := by
+    unfold ceilDiv at h2; omega
+  have hx := nnIndex_lt e.1 src.w v.w h1 hw
+  have hy := nnIndex_lt (2 * e.2.1) src.h v.h hrow hh
+  obtain ⟨a1, a2, a3, a4⟩ := hop _ _ hx hy
+  obtain ⟨eT, aT⟩ := hsh _ a1 a2 a3 a4
+  intro t b
+  rw [h3]
+  simp only [eT]
+  by_cases hbot : 2 * e.2.1 + 1 < v.h
+  · have hy' := nnIndex_lt (2 * e.2.1 + 1) src.h v.h hbot hh
+    obtain ⟨b1, b2, b3, b4⟩ := hop _ _ hx hy'
+    obtain ⟨eB, aB⟩ := hsh _ b1 b2 b3 b4
+    simp only [if_pos hbot, eB]
+    have n1 : ¬ (shown (src.pix (nnIndex e.1 src.w v.w) (nnIndex (2 * e.2.1) src.h v.h))).a < 50 := by rw [aT]; decide
+    have n2 : ¬ (shown (src.pix (nnIndex e.1 src.w v.w) (nnIndex (2 * e.2.1 + 1) src.h v.h))).a < 50 := by rw [aB]; decide
+    simp only [n1, n2, false_and, if_false]
+    rfl
+  · simp only [if_neg hbot]
+    have n1 : ¬ (shown (src.pix (nnIndex e.1 src.w v.w) (nnIndex (2 * e.2.1) src.h v.h))).a < 50 := by rw [aT]; decide
+    simp [n1]
+    rfl
+
+/-- Non-vacuity: `color.YCbCr` pixels (mid grey, saturated extremes that clamp) meet the opacity hypothesis. -/
+example :
+    let px := [C16.ofQuad (ycbcrRGBA 200 128 128), .ofQuad (ycbcrRGBA 255 255 255), .ofQuad (ycbcrRGBA 0 0 0), .ofQuad (ycbcrRGBA 16 255 0)]
+    px.all (fun c => c.a == 0xffff && decide (c.r < 65536) && decide (c.g < 65536) && decide (c.b < 65536)) = true ∧
+    C16.ofQuad (ycbcrRGBA 200 128 128) = ⟨51400, 51400, 51400, 0xffff⟩ := by decide
 
 /-! ## One statement for the colours of a translucent cell -/
 
